@@ -64,6 +64,8 @@ class Run:
     def generate(self, scn):
         d = self.ctx.tmp("mpig")
         out = d / "mpi.hex"
+        if scn.get("stale"):
+            out.write_bytes(STALE)   # history: the output file exists already (left by an earlier invocation)
         v, c = scn["vendor"], scn["cls"]
         sv = None if scn["sv"] == "none" else scn["sv"]
         err = None
@@ -88,7 +90,7 @@ class Run:
                             "size": scn["size"], "dp": scn["dp"], "iu": scn["iu"], "sv": scn["sv"],
                             "vid": list(uuid5.vendor_id(v)), "cid": list(uuid5.class_id(v, c)),
                             "inputs": [], "digest": []})
-        if not out.exists():
+        if not written(out):
             self.events.append({"tid": t, "i": 1, "ev": "Refused", "err": err or ""})
         else:
             self.events.extend(hex_events(out, t))
@@ -115,6 +117,8 @@ class Run:
             files.append(str(f))
             inputs.append([inp["off"], list(data)])
         out = d / "merged.hex"
+        if scn.get("stale"):
+            out.write_bytes(STALE)
         err = None
         if scn.get("via") == "cli":
             a = ["mpi", "merge", "--output-file", out, "--address", hex(scn["addr"]), "--size", scn["size"]]
@@ -128,7 +132,7 @@ class Run:
             except Exception as e:
                 err = repr(e)
         digest = []
-        if out.exists():
+        if written(out):
             try:
                 mem = ihex.memory(out.read_text())
                 area = bytes(mem.get(scn["addr"] + i, 0) for i in range(scn["size"]))
@@ -139,7 +143,7 @@ class Run:
         self.events.append({"tid": t, "i": 0, "ev": "Begin", "kind": "merge", "addr": word(scn["addr"]),
                             "size": scn["size"], "inputs": inputs, "digest": digest, "dp": False, "iu": False,
                             "sv": "none", "vid": [], "cid": []})
-        if not out.exists():
+        if not written(out):
             self.events.append({"tid": t, "i": 1, "ev": "Refused", "err": err or ""})
         else:
             self.events.extend(hex_events(out, t))
@@ -159,6 +163,14 @@ class Run:
                                what=f"mpi {scn['op']} rejected by clause {b['clause']} (event {b['i']}): {json.dumps(scn)[:400]}",
                                replay={"scenario": scn, "clause": b["clause"], "event": b["i"]})
         self.events = []
+
+
+STALE = b"left behind by an earlier invocation\n"
+
+
+def written(out) -> bool:
+    """The invocation wrote the file (a file still holding the marker of the 'stale' history was not written by it)."""
+    return out.exists() and out.read_bytes() != STALE
 
 
 def gen_scenarios(ctx):
@@ -246,7 +258,8 @@ def run(ctx: core.Check):
     r = Run(ctx)
     ctx.note("Use C: real mpi generate")
     gs = gen_scenarios(ctx)
-    for s in gs:
+    for k_, s in enumerate(gs):
+        s["stale"] = k_ % 5 == 3
         r.generate(s)
         ctx.count("evaluations")
         ctx.nontriv(("gen", s["vendor"][:20], s["cls"][:20], s["dp"], s["iu"], s["sv"], s["size"]))
@@ -255,7 +268,8 @@ def run(ctx: core.Check):
     ctx.note(f"Use B/C: {len(hists)} TLC placements replayed into real mpi merge")
     ms = merge_from_tlc(ctx, hists)
     drift = 0
-    for s in ms:
+    for k_, s in enumerate(ms):
+        s["stale"] = k_ % 5 == 3   # the output file exists already: a refusal must not pass for an output, an output must replace it
         r.merge(s)
         ctx.count("evaluations")
         ctx.nontriv(("tlc", tuple((i["off"], i["len"]) for i in s["inputs"])))
